@@ -519,7 +519,15 @@ func (c *qcase) bytes() []byte {
 }
 
 func TestQuasiquote(t *testing.T) {
-	rec.Check(t, rec.Scale(600, 4000), func(rt *rapid.T) {
+	ran, want := 0, rec.Scale(600, 4000)
+	defer func() {
+		// rapid stops early when the test deadline is near: never report that as "held"
+		if !rec.ReplayOnly() && !t.Failed() && ran < want {
+			t.Fatalf("inconclusive: only %d of %d cases ran before the deadline", ran, want)
+		}
+	}()
+	rec.Check(t, want, func(rt *rapid.T) {
+		ran++
 		c, labels := genCase(rt)
 		v := checkCaseShared(c)
 		if v.infra != "" {
